@@ -89,13 +89,15 @@ SRC1_QUICK = [
     {"format": "csv", "path": "xy.csv", "mode": "combinatorial"},
     {"format": "csv", "path": "missing.csv"},
     {"format": "csv", "path": "xyz.csv", "select": ["z", "x"], "rename": {"z": "k"}},
+    {"format": "csv", "path": "xyz.csv", "mode": "combinatorial", "select": ["y", "x"]},          # select order != sorted order
+    {"format": "csv", "path": "xy.csv", "mode": "combinatorial", "rename": {"x": "z"}},           # rename changes the alphabetical rank
 ]
 SRC1_MORE = [
     {"format": "json", "path": "xy.json"}, {"format": "json", "path": "cols.json"},
     {"format": "json", "path": "cols.json", "mode": "combinatorial"},
     {"format": "yaml", "path": "xy.yaml", "rename": {"y": "b"}}, {"format": "yaml", "path": "cols.yaml", "mode": "combinatorial"},
     {"format": "ndjson", "path": "xy.ndjson"}, {"format": "ndjson", "path": "xy.ndjson", "select": ["x"], "mode": "combinatorial"},
-    {"format": "csv", "path": "xyz.csv", "mode": "combinatorial", "select": ["y", "x"]},
+    {"format": "json", "path": "xy.json", "mode": "combinatorial", "select": ["y", "x"], "rename": {"y": "a2"}},
 ]
 BLOCK2 = [
     None,
